@@ -176,6 +176,8 @@ func c12Sequence(c *Ctx, s int, backend, dir string, failing bool) {
 		off := int64(c.Rng.Intn(30))
 		var rn, ln2 int64
 		var rerr, lerr error
+		var wdata []byte // what a Write / ReadFrom was asked to transfer
+		so, _ := f.Seek(0, io.SeekCurrent)
 		switch op {
 		case "read":
 			a, b := make([]byte, ln), make([]byte, ln)
@@ -194,6 +196,7 @@ func c12Sequence(c *Ctx, s int, backend, dir string, failing bool) {
 			}
 		case "write":
 			d := patternBytes(2000+i, ln)
+			wdata = d
 			n1, e1 := f.Write(d)
 			mops, mobs = append(mops, "w:"+hexs(d)), append(mobs, c12Obs(int64(n1), e1, nil))
 			n2, e2 := lf.Write(d)
@@ -237,6 +240,7 @@ func c12Sequence(c *Ctx, s int, backend, dir string, failing bool) {
 			}
 		case "readfrom":
 			d := patternBytes(4000+i, ln)
+			wdata = d
 			n1, e1 := f.ReadFrom(bytes.NewReader(d))
 			mops, mobs = append(mops, "rf:"+hexs(d)), append(mobs, c12Obs(n1, e1, nil))
 			n2, e2 := lf.ReadFrom(bytes.NewReader(d))
@@ -270,7 +274,19 @@ func c12Sequence(c *Ctx, s int, backend, dir string, failing bool) {
 		}
 		ok, why := true, ""
 		if len(rplan)+len(wplan) > 0 {
-			// no os.File to compare with: the model decides (kind fseqm below)
+			// no os.File to compare with: the model decides (kind fseqm below). What the property says without any model: a Write or
+			// ReadFrom advances the offset by the bytes transferred - after a refused chunk the offset marks the end of what is in the file
+			if wdata != nil && mf != nil {
+				content := mf.bytes()
+				moved := ro - so
+				if moved < 0 || moved > int64(len(wdata)) || ro > int64(len(content)) || !bytes.Equal(content[so:ro], wdata[:moved]) {
+					if moved >= 0 && moved <= int64(len(wdata)) && moved > 0 {
+						ok, why = false, fmt.Sprintf("offset-beyond-transfer: %s (err=%v) moved the offset from %d to %d, but the file does not hold those %d bytes of the source there", op, rerr, so, ro, moved)
+					} else if moved != 0 {
+						ok, why = false, fmt.Sprintf("offset-beyond-transfer: %s (err=%v) moved the offset from %d to %d for a source of %d bytes", op, rerr, so, ro, len(wdata))
+					}
+				}
+			}
 		} else if ro != lo {
 			ok, why = false, fmt.Sprintf("after %s the File offset is %d, the os.File offset %d", op, ro, lo)
 		} else if rn != ln2 || (rerr == nil) != (lerr == nil) {
